@@ -4,7 +4,7 @@ ENGINES = [
     {'name': 'A-program-representation', 'path': 'sa/core',
      'serves_properties': ['C01', 'C02', 'C03', 'C04', 'C05', 'C07', 'C08',
                            'C09', 'C10', 'C11', 'C12', 'C13', 'C14', 'C15',
-                           'C17', 'C18', 'C19', 'C20'],
+                           'C16', 'C17', 'C18', 'C19', 'C20'],
      'kind_free_text': 'ast loader with canonical forms, symbol lookup, AST '
                        'templates, statement CFG with dominators, '
                        'post-dominators and control dependence (control '
@@ -19,7 +19,7 @@ ENGINES = [
                        'obligations against a mechanically built reference '
                        'operator; interval analysis of indices'},
     {'name': 'C-expression-algebra', 'path': 'sa/expr',
-     'serves_properties': ['C02', 'C09', 'C10', 'C13', 'C14', 'C19'],
+     'serves_properties': ['C02', 'C09', 'C10', 'C13', 'C14', 'C16', 'C19'],
      'kind_free_text': 'lifting of small numpy expressions from the AST into '
                        'sympy / rational functions; equality by normal form'},
 ]
@@ -232,6 +232,41 @@ CLAIMS = {
              'one flag, identity shortcut, accumulate-then-normalise kernel '
              'shape. Conservation itself is not decided.',
         note='The merge loop of the weights is data dependent.'),
+    'C16': dict(
+        level='other', engine='A-program-representation',
+        technique=_T + 'abstract interpretation of _stretch over array '
+        'lengths and prefix sums (all if/else paths, sympy); templates, '
+        'value resolution and CFG dominance for the search, failure, buffer, '
+        'sea-surface and routing clauses',
+        design_ref='DESIGN.md 4/C16 (as built)',
+        text='Decides structural NECESSARY conditions of the post-conditions, '
+             'not the numeric outcome of the search: (1) for every path of '
+             '_stretch the returned widths have exactly nx - remain entries '
+             '(nx with use_up), consist of [left extension reversed, provided '
+             'centre widths unchanged, right extension] with extensions that '
+             'are prefixes of first/last centre width times stretching**k, '
+             'and the returned edges are the given edges moved by the sums '
+             'of exactly those prefixes; success is reported only if both '
+             'ends of the domain are reached and remain >= 0, failure is the '
+             'sentinel the callers test; (2) origin_and_widths tries only the '
+             'permitted cell numbers, draws stretching factors from [1, '
+             's0] and [sa, s1], fills first the survey then the computation '
+             'domain (use_up), accepts only a successful buffer fill and '
+             'returns its origin and widths; (3) no mesh -> RuntimeError in '
+             'origin_and_widths / construct_mesh for all three directions; '
+             '(4) computation domain = survey domain + min(lambda_factor * '
+             'wavelength, max_buffer) (and the lambda_from_center form), '
+             'skin-depth / wavelength / cell-width formulas; (5) the '
+             'sea-surface test and warning are made on the returned nodes on '
+             'every path, a provided vector is kept, the extra stretching '
+             'allowance is the documented one; (6) per-direction routing of '
+             'centre, sea surface, properties and results in construct_mesh; '
+             '(7) good_mg_cell_nr form, centre part, vector cut.',
+        note='Not decided: that a fitting candidate is found when one exists, '
+             'positivity / monotonicity of the numeric widths, brentq, '
+             'estimate_gridding_opts defaults (only covered by the generic '
+             'control-condition and def-use tables).  Trusted: np.r_, slice '
+             'and cumsum/sum semantics.'),
     'C17': dict(
         level='other', engine='A-program-representation',
         technique=_T + 'writer/reader key-set agreement per registered '
@@ -285,7 +320,4 @@ NOT_APPLICABLE = {
            'no static argument in reach bounds the spectral radius of the '
            'multigrid iteration, and no code-shape clause is a necessary '
            'condition whose breakage must break the bound.',
-    'C16': 'Numeric post-conditions of a data-dependent search (candidate '
-           'stretchings, brentq); the only decidable clause (sea-surface '
-           'warning post-dominates returns) is too small to carry the claim.',
 }
